@@ -35,7 +35,8 @@ GSpec == GInit /\ [][GNext]_gvars
 Snap(k) ==
   LET ttl == IF exp[k] = 0 THEN 0 - 1 ELSE exp[k] - clock IN
   CASE T(k) = "none" -> [k |-> k, t |-> "none"]
-    [] T(k) = "str"  -> [k |-> k, t |-> "str", ttl |-> ttl, s |-> ks[k].s]
+    [] T(k) = "str"  -> [k |-> k, t |-> "str", ttl |-> ttl, s |-> SRep(ks[k])]
+    [] T(k) = "hll"  -> [k |-> k, t |-> "hll", ttl |-> ttl, n |-> Cardinality(PF(k))]
     [] T(k) = "hash" -> [k |-> k, t |-> "hash", ttl |-> ttl,
                          h |-> [i \in 1..Cardinality(Fields(H(k))) |->
                                   [f |-> Sorted(Fields(H(k)))[i], v |-> H(k)[Sorted(Fields(H(k)))[i]]]]]
@@ -43,6 +44,12 @@ Snap(k) ==
     [] T(k) = "set"  -> [k |-> k, t |-> "set", ttl |-> ttl, m |-> Sorted(S(k))]
     [] T(k) = "zset" -> [k |-> k, t |-> "zset", ttl |-> ttl, z |-> ZPairs(Z(k), ZAsc(Z(k)))]
 
-Emit == fin => PrintT(ToJson([steps |-> hist, final |-> {Snap(k) : k \in Keys}]))
+\* the script cache as the driver can ask for it (SCRIPT EXISTS)
+Cache == {[sha |-> Scripts[n].sha, st |-> scr[n]] : n \in ScriptNames}
+
+\* (histories that never touched the script cache carry no cache field)
+Emit == fin => PrintT(ToJson(IF \E n \in ScriptNames : scr[n] # "none"
+                             THEN [steps |-> hist, final |-> {Snap(k) : k \in Keys}, cache |-> Cache]
+                             ELSE [steps |-> hist, final |-> {Snap(k) : k \in Keys}]))
 
 =============================================================================
